@@ -32,6 +32,36 @@ const SIGKILL: i32 = 9;
 const SIG_IGN: usize = 1;
 pub const RLIM_INFINITY: u64 = u64::MAX;
 
+const RLIMIT_NOFILE: i32 = 7;
+
+pub fn get_nofile_limit() -> (u64, u64) {
+    let mut r = Rlimit { cur: 0, max: 0 };
+    unsafe {
+        getrlimit(RLIMIT_NOFILE, &mut r);
+    }
+    (r.cur, r.max)
+}
+
+/// set the soft limit of open file descriptors; hard limit untouched
+pub fn set_nofile_soft(limit: u64) -> bool {
+    let (_c, m) = get_nofile_limit();
+    let r = Rlimit { cur: limit.min(m), max: m };
+    unsafe { setrlimit(RLIMIT_NOFILE, &r) == 0 }
+}
+
+/// number of file descriptors this process has open (highest descriptor number + 1 is what the limit is compared with)
+pub fn highest_fd() -> u64 {
+    let mut hi = 2u64;
+    if let Ok(rd) = std::fs::read_dir("/proc/self/fd") {
+        for e in rd.flatten() {
+            if let Ok(n) = e.file_name().to_string_lossy().parse::<u64>() {
+                hi = hi.max(n);
+            }
+        }
+    }
+    hi
+}
+
 /// ignore SIGXFSZ so that a write beyond RLIMIT_FSIZE returns EFBIG instead of killing us
 pub fn ignore_sigxfsz() {
     unsafe {
